@@ -523,6 +523,7 @@ class HTTPWARCRecorderSession(BaseWARCRecorderSession):
         self._request_record = None
         self._response_record = None
         self._response_temp_file = self._new_temp_file(hint='warcsesrsp')
+        self._response_payload_offset = None
 
     def close(self):
         super().close()
@@ -575,11 +576,15 @@ class HTTPWARCRecorderSession(BaseWARCRecorderSession):
             WARCRecord.WARC_RECORD_ID]
         record.block_file = self._response_temp_file
 
+        # All bytes of the header block (and only those) have been received
+        # at this point, so this is where the payload starts on the wire.
+        self._response_payload_offset = self._response_temp_file.tell()
+
     def response_data(self, data: bytes):
         self._response_temp_file.write(data)
 
     def end_response(self, response: HTTPResponse):
-        payload_offset = len(response.to_bytes())
+        payload_offset = self._response_payload_offset
 
         self._response_record.block_file.seek(0)
         self._recorder.set_length_and_maybe_checksums(
